@@ -2346,6 +2346,10 @@ func (interp *Interpreter) cfg(root *node, sc *scope, importPath, pkgName string
 						// The clause is taken if one of its conditions, tested in sequence, is true.
 						conds := c.child[:len(c.child)-1]
 						for j, cond := range conds {
+							if !isBool(cond.typ) {
+								err = cond.cfgErrorf("non-bool used as case condition")
+								return
+							}
 							cond.tnext = body.start
 							switch {
 							case j < len(conds)-1:
